@@ -30,7 +30,7 @@ ANCHORS = [
     ("tangelo/linq/translator/translate_cirq.py", "translate_c_to_cirq", "cirq translator iterating over source gates"),
     ("tangelo/linq/translator/translate_sympy.py", "translate_c_to_sympy", "sympy translator iterating over source gates"),
 ]
-REQUIRED = {"live_observations_total": 50, "metadata_after_step": 1000, "readonly_unchanged": 300, "rejected_add_gate_no_effect": 31, "gate_constructor_rejects": 60, "copy_consistent": 500, "depth": 500}
+REQUIRED = {"operand_stays_unchanged": 200, "live_observations_total": 50, "metadata_after_step": 1000, "readonly_unchanged": 300, "rejected_add_gate_no_effect": 31, "gate_constructor_rejects": 60, "copy_consistent": 500, "depth": 500}
 BUDGET = {"quick": 240, "thorough": 2400}
 
 
@@ -147,6 +147,13 @@ def run_history(case, ctx):
     check_meta(ctx, c, never_fixed, log)
     steps = pr.randint(1, 12 if ctx.tier == "quick" else 40)
     changing = 0
+    # circuits that were only read (operands of +, *, copy, inverse, split, stack): they must stay as they were while the history
+    # goes on modifying the results of those operations (a result that aliases its operand shows up here)
+    frozen = []
+
+    def freeze(obj, snapshot_, how):
+        frozen.append((obj, snapshot_, how, len(log)))
+        del frozen[:-8]
     for _ in range(steps):
         numeric = all(not isinstance(g.parameter, str) for g in c)
         unitary_only = not c.is_mixed_state
@@ -199,6 +206,8 @@ def run_history(case, ctx):
                           lambda: {"history": log})
                 if d._qubits_simulated:
                     never_fixed = False
+                freeze(c, before, "left operand of +")
+                freeze(d, dsnap, "right operand of +")
                 c = r
                 changing += 1
             elif op == "mul":
@@ -206,17 +215,20 @@ def run_history(case, ctx):
                 log.append(["mul", k])
                 r = c * k
                 ctx.check("readonly_unchanged", full_snapshot(c) == before, "* changed its operand", lambda: {"history": log})
+                freeze(c, before, "operand of *")
                 c = r
                 changing += 1
             elif op == "copy":
                 log.append(["copy"])
                 r = c.copy()
                 ctx.check("readonly_unchanged", full_snapshot(c) == before, "copy() changed the original", lambda: {"history": log})
+                freeze(c, before, "source of copy()")
                 c = r
             elif op == "inverse":
                 log.append(["inverse"])
                 r = c.inverse()
                 ctx.check("readonly_unchanged", full_snapshot(c) == before, "inverse() changed the original", lambda: {"history": log})
+                freeze(c, before, "source of inverse()")
                 c = r
                 changing += 1
             elif op == "trim":
@@ -238,6 +250,7 @@ def run_history(case, ctx):
                 for p_ in parts:
                     check_meta(ctx, p_, True, log + [["part"]])
                 if parts:
+                    freeze(c, before, "source of split()")
                     c = pr.choice(parts)
                     never_fixed = True
                     changing += 1
@@ -249,6 +262,8 @@ def run_history(case, ctx):
                 r = c.stack(d) if pr.random() < 0.5 else stack(c, d)
                 ctx.check("readonly_unchanged", full_snapshot(c) == before and full_snapshot(d) == dsnap, "stack changed an operand",
                           lambda: {"history": log})
+                freeze(c, before, "operand of stack")
+                freeze(d, dsnap, "operand of stack")
                 c = r
                 changing += 1
             elif op in ("rsr", "rrg", "merge", "simplify"):
@@ -291,6 +306,14 @@ def run_history(case, ctx):
             if after != before:
                 c = rebuild(before)
         check_meta(ctx, c, never_fixed, log)
+        for item in list(frozen):
+            obj, snp, how, at = item
+            now = full_snapshot(obj)
+            ctx.check("operand_stays_unchanged", now == snp,
+                      f"a circuit that was only read ({how}, step {at}) changed when the result of that operation was modified later",
+                      lambda: {"history": log, "operand_role": how, "at_step": at, "before": snp, "after": now})
+            if now != snp:
+                frozen.remove(item)
     if changing >= 2:
         ctx.nontrivial(("history", log))
     ctx.sample({"history": log})
